@@ -18,7 +18,7 @@ Definition calls_side_eq (d d' : dealer) : Prop :=
 
 Lemma calls_core_ext : forall d d', calls_side_eq d d' -> calls_core d -> calls_core d'.
 Proof.
-  intros d d' (E1 & E2 & E3 & E4 & E5) [A B C D E F G].
+  intros d d' (E1 & E2 & E3 & E4 & E5) [A B C D E F G K].
   constructor; rewrite ?E1, ?E2, ?E3, ?E4, ?E5; assumption.
 Qed.
 
@@ -52,13 +52,15 @@ Qed.
 (** ** Primitive changes *)
 Lemma core_cancel_timer : forall d t, calls_core d -> calls_core (cancel_timer d t).
 Proof.
-  intros d t [A B C D E F G].
+  intros d t [A B C D E F G K].
   assert (Hsub : forall t1 v, nget (d_timers (cancel_timer d t)) t1 = Some v -> nget (d_timers d) t1 = Some v).
   { intros t1 v H. rewrite ct_timers in H. destruct t as [t0|]; [|exact H].
     destruct (N.eqb t1 t0); [discriminate | exact H]. }
   constructor; rewrite ?ct_calls, ?ct_invs, ?ct_bycall, ?ct_timergen; auto.
   - intros t1 dl cid H. apply (E t1 dl cid). apply Hsub. exact H.
   - intros ikey inv t1 dl cid H1 H2 H3. eapply G; eauto.
+  - destruct t as [t0|]; [|exact K]. cbn [cancel_timer]. dproj.
+    apply NoDup_keys_adel; auto using N.eqb_spec.
 Qed.
 
 (** no timer is armed for a call whose invocation's timer was just stopped *)
@@ -90,7 +92,7 @@ Lemma core_set_inv : forall d ikey inv inv',
     inv_call inv' = inv_call inv -> inv_callee inv' = inv_callee inv -> inv_timer inv' = inv_timer inv ->
     calls_core (d_set_invs d (cset (d_invs d) ikey inv')).
 Proof.
-  intros d ikey inv inv' [A B C D E F G] Hi E1 E2 E3.
+  intros d ikey inv inv' [A B C D E F G K] Hi E1 E2 E3.
   constructor; dproj; intros *.
   - intros H. destruct (A _ _ H) as (i0 & Hi0 & Hc). rewrite cget_cset. keq.
     + exists inv'. split; [reflexivity|]. assert (i0 = inv) by congruence. subst. congruence.
@@ -110,6 +112,7 @@ Proof.
   - rewrite cget_cset. keq.
     + intros H; inversion H; subst. rewrite E3, E1. eauto.
     + eauto.
+  - exact K.
 Qed.
 
 (** stop an invocation's timer and replace its record by one without timer *)
@@ -124,7 +127,7 @@ Proof.
   fold d1 in NT.
   assert (W1 : calls_core d1) by (apply core_cancel_timer; exact W).
   assert (Hi1 : cget (d_invs d1) ikey = Some inv) by (unfold d1; rewrite ct_invs; exact Hi).
-  destruct W1 as [A B C D E F G].
+  destruct W1 as [A B C D E F G K].
   constructor; dproj; intros *.
   - intros H. destruct (A _ _ H) as (i0 & Hi0 & Hc). rewrite cget_cset. keq.
     + exists inv'. split; [reflexivity|]. assert (i0 = inv) by congruence. subst. congruence.
@@ -147,6 +150,7 @@ Proof.
   - rewrite cget_cset. keq.
     + intros H; inversion H; subst. congruence.
     + eauto.
+  - exact K.
 Qed.
 
 Lemma core_drop : forall d cid ikey,
@@ -154,7 +158,7 @@ Lemma core_drop : forall d cid ikey,
     (forall t dl, nget (d_timers d) t <> Some (dl, cid)) ->
     calls_core (drop_call d cid ikey).
 Proof.
-  intros d cid ikey [A B C D E F G] Hb NT.
+  intros d cid ikey [A B C D E F G K] Hb NT.
   destruct (A _ _ Hb) as (inv & Hi & Hc).
   constructor; intros *; rewrite ?dc_calls, ?dc_bycall, ?dc_invs.
   - rewrite !cget_cdel. keq; intros H;
@@ -176,6 +180,7 @@ Proof.
     rewrite cget_cdel. keq; intros H; first [discriminate | solve [eauto]].
   - change (d_timers (drop_call d cid ikey)) with (d_timers d).
     rewrite cget_cdel. keq; intros H; first [discriminate | solve [eauto]].
+  - exact K.
 Qed.
 
 Lemma sub_cancel_timer : forall d t, calls_sub d (cancel_timer d t).
